@@ -242,10 +242,16 @@ class ForwardScheduler(IScheduler):
             _task: Task,
             min_date: datetime,
             resource_usage: _ResourceUsage,
-            calculated: List[int]
+            calculated: List[int],
+            in_progress: List[int]
     ):
         if _task.id in calculated:
             return
+
+        if _task.id in in_progress:
+            # Task waits for a task, that waits for this task or for one of its parents
+            raise RuntimeError(f"Found circle through tasks hierarchy at task {_task.id}")
+        in_progress.append(_task.id)
 
         # Task can't start before end of its own predecessors and predecessors of all its parents.
         # min_date is the project start: every task collects its own bounds, whatever path it was reached by
@@ -254,12 +260,12 @@ class ForwardScheduler(IScheduler):
             prerequisites += [p for p in t.predecessors]
 
         for pred in prerequisites:
-            self.__forward_pass(pred, min_date, resource_usage, calculated)
+            self.__forward_pass(pred, min_date, resource_usage, calculated, in_progress)
 
         max_predecessor_ends = max([t.end for t in prerequisites if t.end is not None] + [min_date])
 
         for ch in _task.children:
-            self.__forward_pass(ch, min_date, resource_usage, calculated)
+            self.__forward_pass(ch, min_date, resource_usage, calculated, in_progress)
 
         resource = self.__resources.setdefault(_task.resource, Resource(_task.resource))
 
@@ -308,6 +314,7 @@ class ForwardScheduler(IScheduler):
                 else:
                     _task.end = max([t.end for t in _task.children if t.end is not None])
 
+        in_progress.remove(_task.id)
         calculated.append(_task.id)
 
     def calc(self, wbs: WBS) -> Schedule:
@@ -321,7 +328,7 @@ class ForwardScheduler(IScheduler):
         forward_resource_usage = _ResourceUsage()
         calculated = []
         for t in forward.roots:
-            self.__forward_pass(t, self.__start, forward_resource_usage, calculated)
+            self.__forward_pass(t, self.__start, forward_resource_usage, calculated, [])
 
         return Schedule(
             forward,
@@ -421,10 +428,16 @@ class BackwardScheduler(IScheduler):
             _task: Task,
             min_date: datetime,
             resource_usage: _ResourceUsage,
-            calculated: List[int]
+            calculated: List[int],
+            in_progress: List[int]
     ):
         if _task.id in calculated:
             return
+
+        if _task.id in in_progress:
+            # Task is awaited by a task, that is awaited by this task or by one of its parents
+            raise RuntimeError(f"Found circle through tasks hierarchy at task {_task.id}")
+        in_progress.append(_task.id)
 
         # Task can't end after start of its own successors and successors of all its parents.
         # min_date is the project end: every task collects its own bounds, whatever path it was reached by
@@ -433,12 +446,12 @@ class BackwardScheduler(IScheduler):
             followers += [p for p in t.successors]
 
         for succ in followers:
-            self.__backward_pass(succ, min_date, resource_usage, calculated)
+            self.__backward_pass(succ, min_date, resource_usage, calculated, in_progress)
 
         min_successor_starts = min([t.start for t in followers if t.start is not None] + [min_date])
 
         for ch in reversed(_task.children):
-            self.__backward_pass(ch, min_date, resource_usage, calculated)
+            self.__backward_pass(ch, min_date, resource_usage, calculated, in_progress)
 
         resource = self.__resources.setdefault(_task.resource, Resource(_task.resource))
 
@@ -485,6 +498,7 @@ class BackwardScheduler(IScheduler):
             else:
                 _task.start = min([t.start for t in _task.children if t.start is not None])
 
+        in_progress.remove(_task.id)
         calculated.append(_task.id)
 
     @staticmethod
@@ -505,7 +519,7 @@ class BackwardScheduler(IScheduler):
 
         calculated = []
         for i in range(len(backward_roots) - 1, -1, -1):
-            self.__backward_pass(backward_roots[i], self.__end, backward_resource_usage, calculated)
+            self.__backward_pass(backward_roots[i], self.__end, backward_resource_usage, calculated, [])
 
         return Schedule(
             backward,
